@@ -383,11 +383,19 @@ func (c *Collection) WriteCas(key string, exp Exp, cas CAS, val any, opt sgbucke
 		if err != nil {
 			return nil, err
 		}
+		stored := raw
+		if (opt & sgbucket.Append) != 0 {
+			// The event carries the whole stored value, not just the appended fragment:
+			row := txn.QueryRow("SELECT value FROM documents WHERE collection=? AND key=?", c.id, key)
+			if err = scan(row, &stored); err != nil {
+				return nil, remapKeyError(err, key)
+			}
+		}
 		casOut = newCas
 		return &event{
 			key:        key,
-			value:      raw,
-			isDeletion: (raw == nil),
+			value:      stored,
+			isDeletion: (stored == nil),
 			cas:        newCas,
 			exp:        exp,
 			isJSON:     isJSON,
